@@ -89,6 +89,14 @@ Theorem C19_child_order_irrelevant :
 Proof. exact (fun a b u v w => conj (order_graft_swap u v w) (cond_graft_swap a b u v w)). Qed.
 Print Assumptions C19_child_order_irrelevant.
 
+(* quadrature conditions stated on the node list c itself (the times at which a time-dependent Hamiltonian
+   is sampled): sum_i b_i c_i^(k-1) = 1/k for every k up to the advertised order of the row *)
+Theorem C19_node_quadrature :
+  forall t, In t methods -> forall b p, In (b, p) (rows t) -> forall k, 1 <= k <= p ->
+    (dotq b (map (fun x => qpow x (k - 1)) (t_c t)) * inject_Z (Z.of_nat k) == 1)%Q.
+Proof. exact quadrature_all. Qed.
+Print Assumptions C19_node_quadrature.
+
 (* non-vacuity: ten methods, 23 tree shapes up to order five *)
 Example C19_nonvacuous : length methods = 10 /\ length (all_upto 5) = 23.
 Proof. vm_compute. split; reflexivity. Qed.
